@@ -73,6 +73,8 @@ structure HDDrv where
   hist : Nat := 0
   model : Option State := none
   dead : Bool := false
+  diverged : Bool := false      -- model and implementation have disagreed in this history (reported once); the monitors go on
+  logTrusted : Bool := true     -- the model's log of accepted actions still is the implementation's (false after an `act` disagreement)
   -- monitor memory
   reqView : Option View := none          -- the request point (Ready/Ante/Blinds) we are at, if any
   answered : List Nat := []              -- game indexes whose ready/pay was accepted since `reqView`
@@ -84,7 +86,8 @@ structure HDDrv where
 
 def hdLine (d : HDDrv) (lineNo : Nat) (ts : List String) : HDDrv × List String :=
   let mism (d : HDDrv) (msg : String) : HDDrv × List String :=
-    ({ d with dead := true, mismatches := d.mismatches + 1 }, [s!"MISMATCH hd hist={d.hist} line={lineNo} {msg}"])
+    if d.diverged then (d, [])
+    else ({ d with diverged := true, mismatches := d.mismatches + 1 }, [s!"MISMATCH hd hist={d.hist} line={lineNo} {msg}"])
   let viol (d : HDDrv) (vs : List String) : HDDrv × List String :=
     ({ d with classes := vs.foldl (fun c v => c.bump v) d.classes }, vs.map (fun c => s!"MONITOR {c} layer=hd hist={d.hist} line={lineNo}"))
   match ts with
@@ -94,7 +97,7 @@ def hdLine (d : HDDrv) (lineNo : Nat) (ts : List String) : HDDrv × List String 
       | [id, seat, _] => do pure ({ id := (← id.toNat?), seat := (← seat.toInt?) } : HPlayer)
       | _ => none)
     let st : State := { players := ps, hand := [], gc := 0, actionTime := (kvInt rest "actiontime").getD 0, playing := false, view := none, last := none }
-    ({ d with hist := h, model := some st, dead := false, reqView := none, answered := [], lastInjected := none, handOpen := false,
+    ({ d with hist := h, model := some st, dead := false, diverged := false, logTrusted := true, reqView := none, answered := [], lastInjected := none, handOpen := false,
               cnt := d.cnt.bump "histories" }, [])
   | _ =>
   if d.dead then (d, []) else
@@ -150,10 +153,10 @@ def hdLine (d : HDDrv) (lineNo : Nat) (ts : List String) : HDDrv × List String 
             let wagers := mine.filter (fun l => wagerKinds.contains l.2.1)
             let folds := mine.filter (fun l => l.2.1 == "fold")
             acc ++
-            (if s.actionTimes == wagers.length && s.callTimes == (mine.filter (fun l => l.2.1 == "call")).length &&
-                s.checkTimes == (mine.filter (fun l => l.2.1 == "check")).length then [] else ["C14.counters-differ-from-accepted-actions"]) ++
+            (if !d.logTrusted || (s.actionTimes == wagers.length && s.callTimes == (mine.filter (fun l => l.2.1 == "call")).length &&
+                s.checkTimes == (mine.filter (fun l => l.2.1 == "check")).length) then [] else ["C14.counters-differ-from-accepted-actions"]) ++
             (if s.raiseTimes ≤ s.actionTimes then [] else ["C14.more-raises-than-actions"]) ++
-            (if s.isFold == !folds.isEmpty && (folds.isEmpty || some s.foldRound == (folds.head?.map (·.2.2))) then [] else ["C14.fold-flag-or-round-wrong"]) ++
+            (if !d.logTrusted || (s.isFold == !folds.isEmpty && (folds.isEmpty || some s.foldRound == (folds.head?.map (·.2.2)))) then [] else ["C14.fold-flag-or-round-wrong"]) ++
             (if (!s.vpip || s.vpipC) && (!s.pfr || s.pfrC) && (!s.ats || s.atsC) && (!s.b3 || s.b3C) && (!s.ft3b || s.ft3bC) &&
                 (!s.cr || s.crC) && (!s.cb || s.cbC) && (!s.ftcb || s.ftcbC) && (!s.sd || s.sdC) then [] else ["C14.did-flag-without-its-chance-flag"])) [] ++
           (if (stats.filter (fun e => e.2.b3)).length ≤ 1 then [] else ["C14.more-than-one-three-bet-flag"]) ++
@@ -163,7 +166,8 @@ def hdLine (d : HDDrv) (lineNo : Nat) (ts : List String) : HDDrv × List String 
       let d := { d with cnt := (d.cnt.bump "states").bump ("ev." ++ v.event),
                         reqView := if isReq then some v else none, answered := if isReq && (d.reqView.map (fun (x : View) => x.stamp)) == some v.stamp then d.answered else [] }
       if out1.isEmpty then ({ d with model := some (afterEmit m1 v) }, out2)
-      else ({ d with dead := true, mismatches := d.mismatches + 1 }, out1 ++ out2)
+      else if d.diverged then ({ d with model := some (afterEmit m1 v) }, out2)
+      else ({ d with diverged := true, mismatches := d.mismatches + 1, model := some (afterEmit m1 v) }, out1 ++ out2)
     | _, _, _, _, _, _, _ => (d, [s!"BADLINE {lineNo} hd-state"])
   | "act" :: rest =>
     match kvNat rest "id", kv rest "kind", kvInt rest "arg", (kv rest "legal").bind boolOf, kv rest "bk", kvInt rest "nr", kv rest "same", kv rest "ev" with
@@ -176,7 +180,7 @@ def hdLine (d : HDDrv) (lineNo : Nat) (ts : List String) : HDDrv × List String 
       let ic := implErrClass post
       let d := { d with cnt := (d.cnt.bump "acts").bump (if ic == "ok" then "acts.ok" else "acts.err") }
       let (dm, outm) : HDDrv × List String :=
-        if mc != ic then mism d s!"op=act id={id} kind={kind} model={mc} impl={String.intercalate " " post} bk={bk}" else (d, [])
+        if mc != ic then mism { d with logTrusted := false } s!"op=act id={id} kind={kind} model={mc} impl={String.intercalate " " post} bk={bk}" else (d, [])
       let d := dm
       (fun (res : HDDrv × List String) => (res.1, outm ++ res.2)) <|
         let gi := findIdx m.hand id
@@ -225,6 +229,27 @@ def hdLine (d : HDDrv) (lineNo : Nat) (ts : List String) : HDDrv × List String 
         (if last.isNone then [] else ["C07.last-action-not-cleared-between-hands"]))
       ({ d with model := some (reset m), handOpen := false, reqView := none, answered := [] }, out)
     | _, _, _ => (d, [s!"BADLINE {lineNo} hd-between"])
+  | "withheld" :: rest =>
+    -- one asked player stayed silent; everybody else answered; the response time-out was waited out
+    let adv := (kv post "advanced").getD "0" == "1"
+    let ms := (kvNat post "ms").getD 0
+    let gi := (kvNat rest "gi").getD 0
+    -- the model: the time-out answers for everybody still awaited (`RG.timeout`), so the group completes
+    let modelDone := match d.reqView with
+      | some rv => ((d.answered.foldl RG.answer (RG.arm rv)).timeout).done
+      | none => true
+    let early := adv && ms + 1500 < Facts.gameTimeoutSecs * 1000 &&
+                 (match d.reqView with | some rv => (asked rv).contains gi && !(d.answered.contains gi) | none => false)
+    let (d, out) := viol d (
+      (if modelDone && !adv then ["C11.hand-did-not-move-on-after-the-response-timeout"] else []) ++
+      (if early then ["C11.hand-advanced-before-everybody-asked-had-answered"] else []))
+    -- from here on everybody counts as answered (the time-out did it)
+    ({ d with answered := (match d.reqView with | some rv => asked rv | none => d.answered),
+              cnt := (d.cnt.bump "withheld").bump ("withheld." ++ (kv rest "ev").getD "?") }, out)
+  | "crash" :: rest =>
+    let (d, out) := viol d ["CRASH.engine-panic"]
+    ({ d with dead := true, mismatches := d.mismatches + 1, cnt := d.cnt.bump "crashed" },
+     [s!"MISMATCH hd hist={d.hist} line={lineNo} engine panicked: {" ".intercalate rest}"] ++ out)
   | "stuck" :: rest =>
     let (d, out) := viol d ["C11.hand-did-not-reach-settlement"]
     ({ d with dead := true, cnt := d.cnt.bump ("stuck." ++ (kv rest "reason").getD "?") }, out)
